@@ -821,8 +821,83 @@ def activation_functions(ctx: Ctx) -> Set[str]:
 
 
 # ---------------------------------------------------------------------- wait helper summaries
+def _inline_simple_calls(ctx: Ctx, h: FuncInfo) -> FuncInfo:
+    """A copy of h in which every top-level statement `x = g(a, b, ...)` / `g(a, b, ...)` calling a module-level package function g
+    (straight-line or structured body, a single `return <name>` as its last statement, arguments that are plain names) is replaced
+    by g's body: the helper is then summarised as if the shared part had been written in place."""
+    import copy as _copy
+
+    changed = False
+    new_body: List[ast.stmt] = []
+    for st in h.node.body:  # type: ignore[attr-defined]
+        call = None
+        if isinstance(st, (ast.Assign, ast.Expr)):
+            v = st.value
+            if isinstance(v, ast.Await):
+                v = v.value
+            if isinstance(v, ast.Call) and not isinstance(st.value, ast.Await):
+                call = v
+        g = None
+        if call is not None:
+            q = ctx.T.resolve_callee(h, call)
+            cand = ctx.P.funcs.get(q) if q else None
+            if cand is not None and cand.cls is None and cand.parent is None and cand.qualname != h.qualname and not cand.is_async:
+                g = cand
+        if g is None:
+            new_body.append(st)
+            continue
+        gb = [x for x in g.node.body if not (isinstance(x, ast.Expr) and isinstance(x.value, ast.Constant))]  # type: ignore[attr-defined]
+        rets = [x for x in ast.walk(g.node) if isinstance(x, ast.Return)]
+        last_ret = gb[-1] if gb and isinstance(gb[-1], ast.Return) else None
+        if len(rets) > 1 or (rets and rets[0] is not last_ret) or any(isinstance(x, (ast.Yield, ast.YieldFrom, ast.Await)) for x in ast.walk(g.node)):
+            new_body.append(st)
+            continue
+        ga = g.node.args  # type: ignore[attr-defined]
+        gparams = [x.arg for x in ga.posonlyargs + ga.args + ga.kwonlyargs]
+        actual: Dict[str, str] = {}
+        ok = not ga.vararg and not ga.kwarg and len(call.args) <= len(gparams)
+        for p_, a_ in zip(gparams, call.args):
+            if isinstance(a_, ast.Name):
+                actual[p_] = a_.id
+            else:
+                ok = False
+        for k in call.keywords:
+            if k.arg in gparams and isinstance(k.value, ast.Name):
+                actual[k.arg] = k.value.id
+            else:
+                ok = False
+        if not ok or set(actual) != set(gparams):
+            new_body.append(st)
+            continue
+        locals_g = {x.id for x in ast.walk(g.node) if isinstance(x, ast.Name) and isinstance(x.ctx, ast.Store)} - set(gparams)
+
+        class _Ren(ast.NodeTransformer):
+            def visit_Name(self, node: ast.Name):
+                if node.id in actual:
+                    return ast.copy_location(ast.Name(id=actual[node.id], ctx=node.ctx), node)
+                if node.id in locals_g:
+                    return ast.copy_location(ast.Name(id="_inl_" + node.id, ctx=node.ctx), node)
+                return node
+
+        body = [_Ren().visit(_copy.deepcopy(x)) for x in (gb[:-1] if last_ret is not None else gb)]
+        if last_ret is not None and last_ret.value is not None and isinstance(st, ast.Assign):
+            rv = _Ren().visit(_copy.deepcopy(last_ret.value))
+            # `x = x` carries no information
+            if not (isinstance(rv, ast.Name) and len(st.targets) == 1 and isinstance(st.targets[0], ast.Name) and st.targets[0].id == rv.id):
+                body.append(ast.copy_location(ast.Assign(targets=st.targets, value=rv), st))
+        new_body += body
+        changed = True
+    if not changed:
+        return h
+    node = _copy.copy(h.node)
+    node.body = new_body  # type: ignore[attr-defined]
+    ast.fix_missing_locations(node)
+    return FuncInfo(h.qualname + "~inlined", h.module, node, h.cls, h.parent)
+
+
 def analyse_wait_helper(ctx: Ctx, h: FuncInfo) -> Optional[WaitHelper]:
     T = ctx.T
+    h = _inline_simple_calls(ctx, h)
     wait_call = None
     kind = None
     awaited = False
